@@ -3,7 +3,9 @@
 REPO=${1:-/repo}
 D=$(mktemp -d /tmp/qv-replay-XXXXXX)
 g++ -std=gnu++17 -O1 -g -fsanitize=address,undefined -fno-sanitize-recover=all -fno-exceptions -I$REPO/Include "$(dirname "$0")/replays.cpp" -o $D/replays || { rm -rf $D; exit 2; }
+# cases that demonstrate a KNOWN finding (known_findings.jsonl, status "known"): they fail on the current tree by design
+KNOWN="math_negative_base_even_negative_exponent"
 for c in $($D/replays); do
-  if $D/replays $c >$D/out 2>&1; then echo "ok      $c"; else echo "DEFECT  $c  ($(grep -m1 -E 'ERROR: AddressSanitizer|runtime error|expected|DEFECT|SEGV|FPE' $D/out | cut -c1-110))"; fi
+  if $D/replays $c >$D/out 2>&1; then echo "ok      $c"; elif echo " $KNOWN " | grep -q " $c "; then echo "known   $c  ($(grep -m1 -E 'expected' $D/out | cut -c1-110))"; else echo "DEFECT  $c  ($(grep -m1 -E 'ERROR: AddressSanitizer|runtime error|expected|DEFECT|SEGV|FPE' $D/out | cut -c1-110))"; fi
 done
 rm -rf $D
